@@ -31,8 +31,9 @@ nest <i> <nameA H> <nameB H> SCRIPT_A :: SCRIPT_B
                                      (pull B runs to its end inside pull A's verify, same directory; by
                                      `pulls_do_not_interfere` each behaves as if alone unless one's destination
                                      is the other's temp sibling)
-real <i> <reader|writer> <chunk N> <fail -|N> <depth N> <payload H> SCRIPT   -> as `script` (real `Server`,
-                                                  producer failing after N bytes; SCRIPT = what the client saw)
+real <i> <reader|writer|value> <chunk N> <fail -|N|pN> <depth N> <payload H> SCRIPT   -> as `script` (real `Server`,
+                                                  producer body returning Err after N bytes, or PANICKING there (`pN`; `value` = a Serialize impl
+                                                  panicking at element N); SCRIPT = what the client saw: a dying producer is a failing script)
 value <i> <sync|async> <comp> <fmt> <open> need <N> <dec> wire <resp>…  -> <i> ret <ok L:FNV|err>
   (value: `need` = length of the value's encoding; `dec` = output of the zstd stream decoder on the delivered bytes)
 ```
